@@ -132,7 +132,8 @@ TSilent ==
   /\ \/ NewFile
      \/ (par.maxsize = 0 /\ Flush)
      \/ (~Batch[tid].mid /\ runs >= 1 /\ runs <= Len(Scn) /\ exch < Len(Scn[runs].ex)
-         /\ Session(Scn[runs].ex[exch + 1].k, Scn[runs].ex[exch + 1].shape))
+         /\ Session(Scn[runs].ex[exch + 1].k, Scn[runs].ex[exch + 1].shape,
+                    IF Scn[runs].ex[exch + 1].body = "empty" THEN "empty" ELSE "data"))
      \/ (~Batch[tid].mid /\ runs >= 1 /\ runs <= Len(Scn) /\ exch = Len(Scn[runs].ex) /\ Close)
 
 TNext == TBoot \/ TStart \/ TAbegin \/ TAend \/ TSend \/ TEnd \/ TOp \/ TSilent
